@@ -63,4 +63,12 @@ def pooBound (Dmax n : α) : α := 1 / 2 * Dmax * log (n / log n)
 def zoomRadius (phase pulls : α) : α := sqrt (8 * phase / (2 + pulls))
 def zoomThreshold (nu rho h : α) : α := nu * rpow rho h
 
+/-- VROOM: weight of a cell of depth `h` and rank `r`: `1/(h·r·C)`; importance-weighted reward `r/(P/2^i)` (Eq. 4),
+`P` the cumulative weight of the layers down to the cell, `2^i` written as the value `pw` -/
+def vroomProb (h rank C : α) : α := 1 / (h * rank * C)
+def vroomTilde (r cum pw : α) : α := r / (cum / pw)
+
+/-- VHCT: the empirical variance used in the index is floored at `minvar` -/
+def varFloor (max2 : α → α → α) (var minvar : α) : α := max2 var minvar
+
 end PyXAB.Published
